@@ -117,12 +117,19 @@ Section Formatter.
   (* writeNormalizedData (comments and PI data): the runs between line feeds go to
      writeCommentChars / writePIChars, which throw for what the encoding cannot represent; a
      character that may only be written as a reference is an error here *)
+  (* a character that survives parsing only as a character reference cannot stand in a comment or PI:
+     the XML 1.1 control characters, and (when GenSer.comment_eol_is_error: fix 06-K-new-1-comment-pi)
+     CR and under 1.1 NEL and LSEP, which a parser would turn into LF *)
+  Definition comment_eol (c : N) : bool :=
+    comment_eol_is_error && ((c =? 13) || (v11 && ((c =? 133) || (c =? 8232)))).
+  Definition p_comment_error (c : N) : bool := p_crforbidden v11 c || comment_eol c.
+
   Fixpoint normalized_loop (l run_rev : list N) : list item :=
     match l with
     | [] => f_comment F (rev run_rev)
     | c :: r =>
         if c =? 10 then f_comment F (rev run_rev) ++ f_newline F ++ normalized_loop r []
-        else if p_crforbidden v11 c then [IThrow err_forbidden]
+        else if p_comment_error c then [IThrow err_forbidden]
         else normalized_loop r (c :: run_rev)
     end.
 
